@@ -143,13 +143,23 @@ fn main() {
         rep.finish();
         return;
     }
+    let limb_corpus = args.get("corpus-limb").map(mlverif::gen::read_digit_corpus).unwrap_or_default();
+    rep.extra.insert("limb_structured_corpus_entries".into(), format!("{}", limb_corpus.len()));
     let mut i = 0u64;
     while rep.evals < max {
         if rep.out_of_time() {
             break;
         }
         i += 1;
-        let (int, frac, exp, tag) = if valid_only && i % 2 == 0 {
+        let (int, frac, exp, tag) = if i % 8 == 7 && !limb_corpus.is_empty() {
+            // near-halfway integers whose big-integer image has whole zero limbs (multiples of 2^(64k), two islands): the
+            // zero-limb special cases of the multi-limb arithmetic, reached through the public entry point
+            let mut r2 = rng.fork(rng.next());
+            match mlverif::gen::limb_struct_case(&mut r2, &limb_corpus) {
+                Some(c) => (c.int, c.frac, c.exp, "limb_structured_valid"),
+                None => (b"1".to_vec(), vec![], 0, "limb_structured_valid"),
+            }
+        } else if valid_only && i % 2 == 0 {
             let (a, b, e) = targeted(&rng, i / 2);
             (a, b, e, "targeted_valid")
         } else if valid_only {
